@@ -25,6 +25,7 @@ LEVEL_TEXT = (
     "generated files: float64 by default, the file's own missing cells plus the cells equal to MissingValue masked, "
     "Positive types reject negative data with InvalidPositiveData, Fuzzy rejects data outside [-1.02, 1.02] with "
     "InvalidFuzzyData and clamps the rest to [-1, 1]. Sampled, not exhaustive."
+    ' Templates may carry CRS variables, 64-bit and non-single-precision coordinates and packed (scale_factor/add_offset) coordinate variables, which must arrive with the same element type, stored numbers and decoded values; read cases may first read other values at the same path.'
 )
 LEVEL_NOTE = "Data read as an integer type are integer-valued (rounding of fractional data is not part of the statement); for Positive/Fuzzy reads the missing value itself lies inside the valid range."
 RULE = (
